@@ -178,7 +178,7 @@ func runC02(c *core.Ctx) {
 			}
 		},
 	})
-	c.CasesPar("reader", c.N(12000, 60000), 4, func(k *core.Case) {
+	c.CasesPar("reader", c.N(12000, 500000), 4, func(k *core.Case) {
 		r := k.R
 		cfg := genReaderCfg(r)
 		if r.Chance(1, 4) {
